@@ -8,6 +8,11 @@ Record realdoc := mkRealdoc { rl_col : str; rl_key : str; rl_view : val; rl_ver 
 Record snapstore := mkSnapstore { ss_snaps : list snapdoc; ss_real : list realdoc }.
 Definition snapstore_init : snapstore := mkSnapstore [] [].
 
+(* ResetCollection on the snapshot side: the snapshots carrying the collection's number and the user collection go *)
+Definition reset_snapstore (ss : snapstore) (name : str) (num : option N) : snapstore :=
+  mkSnapstore (match num with Some n => filter (fun sn => negb (N.eqb (sn_col sn) n)) (ss_snaps ss) | None => ss_snaps ss end)
+              (filter (fun r => negb (str_eqb (rl_col r) name)) (ss_real ss)).
+
 Section SnapSrv.
   Variable St : Type.
   Variable k_init : St.
